@@ -53,6 +53,13 @@ theorem tieA_window_limit_rp002 (g : Gen.MacRfFn.Mac) (m : MacState) (cr : Codin
     subst_vars
     exact this
 
+/-- **Tie A.**  `Mac::rx_windows` = the model's `rxWindows`: RX1 on the frequency paired with the channel actually
+transmitted on, at the region's RX1 rate for the uplink's data rate and the stored RX1DROffset; RX2 by
+`rx2_rf_config`. -/
+theorem tieA_rx_windows (g : Gen.MacRfFn.Mac) (m : MacState) (cr : CodingRate) (h : Rel g m cr) (t : Gen.MacRfFn.TxChannel) :
+    (Gen.MacRfFn.Mac.rx_windows g t).map (fun w => (rfM w.rx1, rfM w.rx2)) = (rxWindows m (txM t)).toOption :=
+  windows_tie g m cr h t
+
 /-! ## non-vacuity -/
 
 /-- a freshly initialised EU868 device, as the generated methods see it -/
@@ -72,7 +79,9 @@ example :
     (Gen.MacRfFn.Mac.rx2_rf_config exMac ._5).map rfM = some ⟨869525000, 12, 125000, 59⟩ ∧
     (Gen.MacRfFn.Mac.rx2_rf_config { exMac with configuration := { exMac.configuration with
         rx2_data_rate := some ._3, rx2_frequency := some 868500000 } } ._5).map rfM = some ⟨868500000, 9, 125000, 123⟩ ∧
-    (Gen.MacRfFn.Mac.get_rxc_config exMac).map (fun c => (rfM c.rf, c.mode)) = some (⟨869525000, 12, 125000, 59⟩, .Continuous) := by
+    (Gen.MacRfFn.Mac.get_rxc_config exMac).map (fun c => (rfM c.rf, c.mode)) = some (⟨869525000, 12, 125000, 59⟩, .Continuous) ∧
+    (Gen.MacRfFn.Mac.rx_windows exMac ⟨⟨._125KHz, ._7, 250, 250⟩, ._5, 868300000, 868300000⟩).map (fun w => (rfM w.rx1, rfM w.rx2))
+      = some (⟨868300000, 7, 125000, 250⟩, ⟨869525000, 12, 125000, 59⟩) := by
   decide
 
 end C05
@@ -81,3 +90,4 @@ end C05
 #print axioms C05.tieA_rx2_rf_config
 #print axioms C05.tieA_get_rxc_config
 #print axioms C05.tieA_window_limit_rp002
+#print axioms C05.tieA_rx_windows
